@@ -63,11 +63,26 @@ class HttpRelayClient(RelayPoolClient):
         result, envelope = self.poll()
         if result and envelope:
             self.idle = False
-            self._handle_request(result, envelope)
+            try:
+                self._handle_request(result, envelope)
+            except gevent.Timeout:
+                self._fail_request(result, 'Delivery timed out')
+                raise
+            except Exception as exc:
+                self._fail_request(result, str(exc) or 'Connection failed')
+                raise
         else:
             if self.conn:
                 self.conn.close()
                 self.conn = None
+
+    def _fail_request(self, result, msg):
+        # The caller of attempt() is waiting on the result: never leave it unset.
+        if self.conn:
+            self.conn.close()
+            self.conn = None
+        if not result.ready():
+            result.set_exception(TransientRelayError(msg))
 
     def _b64encode(self, what):
         return b64encode(what.encode('utf-8')).decode('ascii')
